@@ -9,7 +9,7 @@ from pygopherd.handlers.virtual import Virtual
 
 class PYGHandler(Virtual):
     def canhandlerequest(self) -> bool:
-        if not isinstance(self.vfs, VFS_Real):
+        if type(self.vfs) is not VFS_Real:
             return False
 
         if not (
